@@ -217,6 +217,34 @@ Proof. exact LexLink4Ex.lex_emit_core4_full_refuted. Qed.
 Theorem C02_text_roundtrip_core4_nonvacuous : TokRound4.core4_doc TokRound4Ex.ex4 = true /\ LexLink4.lex_safe4_doc TokRound4Ex.ex4 = true.
 Proof. exact (conj TokRound4Ex.ex4_core LexLink4Ex.ex4_safe). Qed.
 
+(* BLOCK TARGETS  KEY[->§T]:  and HOLOGRAPHIC values  KEY::["x"/\REQ->§SELF]  (parser half, every depth, Rt/TokRoundT*.v).
+   A holographic value is first read as an ordinary bracket group; its tokens are then turned back into text
+   (reconstruct_tok) and offered to the oracle holo_ok.  hsh gives the token shape of each raw text (arbitrary);
+   nums_ok2_l carries, per holographic site, the hypothesis holo_site, which C02_holographic_site_class discharges
+   for the syntactic class  [ example /\ chain ]  (one-token example; chain = a word, a call WORD[..], or a flow
+   expression of words, calls, operators and § references). *)
+From OV Require Rt.TokRoundT Rt.TokRoundTHolo Rt.TokRoundTEx.
+Theorem C02_targets_and_holographic_readback_all_depths :
+  forall numcanon holo_ok strict sp alpha ml idnum (hsh : str -> list sh) d,
+    TokRoundT.coret_doc d = true -> TokRoundT.nums_ok2_l numcanon holo_ok strict sp idnum hsh (dsections d) ->
+    Forall (TokRoundT.field_num_ok numcanon) (dmeta d) ->
+    forall st0 ts tail, tail <> [] -> pbdepth st0 = 0%N -> Forall2 tmatch ts (TokRoundT.doct_sh ml idnum hsh d) -> ptoks st0 = ts ++ tail ->
+    exists st', parse_document numcanon holo_ok strict sp alpha st0 = POk d st' /\ TokRoundT.wext2 st0 st'.
+Proof. exact TokRoundT.parse_coret_doc. Qed.
+
+Theorem C02_holographic_site_class :
+  forall numcanon holo_ok strict sp (hsh : str -> list sh) raw,
+    TokRoundTHolo.hgroup_ok numcanon (hsh raw) = true -> forallb TokRoundTHolo.rec_det (hsh raw) = true ->
+    flat_map TokRoundTHolo.rec_sh (hsh raw) = raw -> holo_ok raw = true ->
+    TokRoundT.holo_site numcanon holo_ok strict sp hsh raw.
+Proof. exact TokRoundTHolo.hgroup_site. Qed.
+
+(* non-vacuity: depth 3, two targeted blocks (one nested), a section, four holographic values (a call and ->§SELF,
+   REGEX["^a$"], ->§INDEXER, [null /\ REQ]) under a concrete oracle: the reader returns the document from the emitted text *)
+Theorem C02_targets_and_holographic_nonvacuous :
+  parse_model TokRoundEx.ex_cls ex2_numcanon TokRoundTEx.holo_ex true (lines_of (emit (u_space TokRoundEx.ex_cls) TokRoundTEx.ext)) = PRDoc TokRoundTEx.ext [] [].
+Proof. exact TokRoundTEx.ext_roundtrip. Qed.
+
 (* ---- source-text pins (generated by harness/pinsets.py) ---- *)
 (* every function of these modules is, text for text (comments and docstrings excluded), the one the models of this
    property were written against and validated against: harness/translate/srcdigest_t.py, Src/Pin_*.v *)
